@@ -3,6 +3,7 @@ package main
 import (
 	"fmt"
 	"net"
+	"os"
 	"runtime/debug"
 	"sort"
 	"strings"
@@ -22,6 +23,7 @@ type SchedScenario struct {
 	Setup   []Action   // executed sequentially (connection 0) before the concurrent part
 	Threads [][]Action // thread i runs its actions in order on connection i
 	Bound   int        // preemption bound (<0: unbounded)
+	NoEager bool       // spawned goroutines are not advanced to their first point at spawn (their start is a scheduling point)
 	MaxExec int        // cap on executions (0 = none); hitting it is reported as non-exhaustive
 }
 
@@ -138,7 +140,10 @@ func (o *SchedOutcome) Key() string {
 	return sb.String()
 }
 
+var dbgParentOps = map[string][]string{}
+
 type dfsChooser struct {
+	opsLog   [][]string
 	prefix   []int
 	pos      int
 	points   []pointRec
@@ -152,6 +157,9 @@ type pointRec struct {
 }
 
 func (c *dfsChooser) Choose(p verifrt.Point) int {
+	if os.Getenv("VERIF_DBG_DIVERGE") != "" && len(c.prefix) == 0 && c.pos < 3 {
+		fmt.Fprintf(os.Stderr, "  first-run point %d: %v\n", c.pos, p.Ops)
+	}
 	ch := 0
 	if c.pos < len(c.prefix) {
 		ch = c.prefix[c.pos]
@@ -159,6 +167,9 @@ func (c *dfsChooser) Choose(p verifrt.Point) int {
 			c.diverged = fmt.Sprintf("replaying choice %d at point %d but only %d threads enabled (%v)", ch, c.pos, len(p.Enabled), p.Ops)
 			ch = 0
 		}
+	}
+	if os.Getenv("VERIF_DBG_DIVERGE") != "" {
+		c.opsLog = append(c.opsLog, append([]string{fmt.Sprintf("cur=%d", p.Cur)}, p.Ops...))
 	}
 	c.points = append(c.points, pointRec{len(p.Enabled), p.CurEnabled, ch})
 	c.pos++
@@ -174,6 +185,7 @@ func runSchedule(sc *SchedScenario, prefix []int, serialOrder [][2]int, trace bo
 	} else {
 		verifrt.SetFS(nil)
 	}
+	verifrt.QuiesceTimeout(5*time.Second, 10*time.Millisecond) // nothing of an earlier free-mode instance may still be moving
 	verifrt.BeginControlled()
 	ended := false
 	defer func() {
@@ -218,19 +230,26 @@ func runSchedule(sc *SchedScenario, prefix []int, serialOrder [][2]int, trace bo
 	}
 	out := &SchedOutcome{Replies: make([][]string, len(sc.Threads))}
 	ch := &dfsChooser{prefix: prefix}
+	verifrt.SetEagerStart(!sc.NoEager)
 	verifrt.SetTracing(trace)
 	var mains []func()
 	var names []string
 	if serialOrder != nil {
+		// serial reference: one command at a time, each followed by quiescence of everything it spawned
+		// (one scheduler phase per command, default schedule)
 		for i := range sc.Threads {
 			out.Replies[i] = make([]string, len(sc.Threads[i]))
 		}
-		mains = append(mains, func() {
-			for _, st := range serialOrder {
+		for _, st := range serialOrder {
+			st := st
+			ph = verifrt.RunPhase(verifrt.FirstChooser, []string{"serial"}, func() {
 				out.Replies[st[0]][st[1]] = in.doCtl(st[0], sc.Threads[st[0]][st[1]])
+			})
+			if ph.Deadlock || len(ph.Panics) > 0 || ph.Stuck {
+				out.Deadlock, out.Panics, out.Stuck, out.Blocked = ph.Deadlock, ph.Panics, ph.Stuck, ph.Blocked
+				break
 			}
-		})
-		names = append(names, "serial")
+		}
 	} else {
 		for i := range sc.Threads {
 			i := i
@@ -246,8 +265,10 @@ func runSchedule(sc *SchedScenario, prefix []int, serialOrder [][2]int, trace bo
 			names = append(names, fmt.Sprintf("T%d", i))
 		}
 	}
-	ph = verifrt.RunPhase(ch, names, mains...)
-	out.Deadlock, out.Livelock, out.Blocked, out.Panics, out.Stuck, out.Trunc, out.Points = ph.Deadlock, ph.Livelock, ph.Blocked, ph.Panics, ph.Stuck, ph.Truncated, ph.Points
+	if serialOrder == nil {
+		ph = verifrt.RunPhase(ch, names, mains...)
+		out.Deadlock, out.Livelock, out.Blocked, out.Panics, out.Stuck, out.Trunc, out.Points = ph.Deadlock, ph.Livelock, ph.Blocked, ph.Panics, ph.Stuck, ph.Truncated, ph.Points
+	}
 	if trace {
 		out.Trace = verifrt.TakeTrace()
 	}
@@ -294,6 +315,8 @@ func newInstanceNoConns(cfg InstCfg) (*sugardb.SugarDB, error) {
 	in, err := newInstanceRaw(cfg)
 	return in, err
 }
+
+var dbgDiverge bool
 
 type SchedResult struct {
 	TotalPoints int
@@ -363,6 +386,23 @@ func exploreScenario(sc *SchedScenario) *SchedResult {
 		res.Executions++
 		if ch.diverged != "" {
 			res.Diverged = ch.diverged
+			if dbgDiverge || os.Getenv("VERIF_DBG_DIVERGE") != "" {
+				fmt.Fprintf(os.Stderr, "DIVERGED scenario=%s prefix=%v\n  parent saw at that point: %v\n", sc.Name, prefix, dbgParentOps[sc.Name+fmt.Sprint(prefix)])
+				for i := 0; i < 3; i++ {
+					o2, ch2, _ := runSchedule(sc, prefix, nil, true)
+					var ns []int
+					for _, p := range ch2.points {
+						ns = append(ns, p.n)
+					}
+					fmt.Fprintf(os.Stderr, "  rerun %d: diverged=%q counts=%v\n   trace=%v\n", i, ch2.diverged, ns, o2.Trace)
+				}
+				o3, ch3, _ := runSchedule(sc, prefix[:len(prefix)-1], nil, true)
+				var ns []int
+				for _, p := range ch3.points {
+					ns = append(ns, p.n)
+				}
+				fmt.Fprintf(os.Stderr, "  parent prefix: counts=%v\n   trace=%v\n", ns, o3.Trace)
+			}
 			return
 		}
 		if o.Points > res.MaxPoints {
@@ -387,6 +427,9 @@ func exploreScenario(sc *SchedScenario) *SchedResult {
 							np[j] = ch.points[j].chosen
 						}
 						np[i] = alt
+						if len(ch.opsLog) > i {
+							dbgParentOps[sc.Name+fmt.Sprint(np)] = append([]string{fmt.Sprintf("parent-prefix=%v threads=%d/%d/%d allops=%v", prefix, len(sc.Threads[0]), len(sc.Threads[1]), len(sc.Threads[2]), ch.opsLog[:i+1])}, ch.opsLog[i]...)
+						}
 						explore(np)
 					}
 				}
